@@ -19,7 +19,11 @@ use std::io::{BufRead, Write};
 fn main() {
     let args: Vec<String> = std::env::args().collect();
     // panics inside the code under test are results (caught per op), not noise on stderr
-    std::panic::set_hook(Box::new(|_| {}));
+    std::panic::set_hook(Box::new(|info| {
+        if std::env::var("H2V_PANIC_MSG").is_ok() {
+            eprintln!("PANIC: {}", info);
+        }
+    }));
     match args.get(1).map(|s| s.as_str()) {
         Some("gen") => {
             let profile = args.get(2).expect("profile");
